@@ -15,7 +15,7 @@ func init() {
 	core.Register(&core.Check{
 		ID:    "C08",
 		Level: "exploration",
-		Rule: "E-twin with a spelling generator: a directory (and a file) is added under each of 14 spellings (absolute, relative, ./, //, d/../d, trailing slash, /./ inside, via absolute and relative symlinks to directory and file, symlink chain), " +
+		Rule: "E-twin with a spelling generator: a directory (and a file) is added under each of 19 spellings (absolute, relative, ./, //, d/../d, trailing slash, /./ inside, via absolute and relative symlinks to directory and file, symlink chain, '..' followed by a symlink component), " +
 			"then entries of every byte length in the padding-boundary list (1..255, all residues mod 16) and 8 shapes (ASCII, spaces, leading dot/dash, multi-byte UTF-8 cut at the byte boundary, invalid UTF-8, control characters) are created/written/chmod'ed/renamed/removed with consumer pauses, " +
 			"so names are decoded at offsets across the whole 64 KiB buffer. Every received name must be byte-for-byte Clean(arg) or Clean(arg)+\"/\"+entry as the driver spelled it; with aliases the first spelling added must be used. Directed family: a directory above the watched path is renamed (watch on top, on top/sub/deep and/or top/sub/f, then top/sub moves): later events must still carry the spellings given to Add; and the same entry names in three watched directories with name-less notifications of the directories themselves in between. " +
 			"distinct_nontrivial = distinct (spelling, entry name) pairs whose events were compared",
@@ -50,6 +50,8 @@ var spellings = []spelling{
 	{Kind: "rel-symlink-dot-slash", Arg: func(b, r string) string { return "./lnS/" }, Link: "lnS", Tgt: func(b, r string) string { return "./" + r }},
 	{Kind: "symlink-in-subdir", Arg: func(b, r string) string { return "other/lnO" }, Link: "other/lnO", Tgt: func(b, r string) string { return "../" + r }},
 	{Kind: "symlink-chain", Arg: func(b, r string) string { return "lnC2" }, Link: "lnC2", Tgt: func(b, r string) string { return "lnC1" }},
+	{Kind: "dotdot-then-symlink", Arg: func(b, r string) string { return "other/../lnDD" }, Link: "lnDD", Tgt: func(b, r string) string { return r }},
+	{Kind: "abs-dotdot-then-symlink", Arg: func(b, r string) string { return filepath.Join(b, r) + "/../lnDA" }, Link: "lnDA", Tgt: func(b, r string) string { return r }},
 	{Kind: "dot", Arg: func(b, r string) string { return "." }, Chdir: true},
 	{Kind: "dot-slash-only", Arg: func(b, r string) string { return "./" }, Chdir: true},
 	{Kind: "sub-dotdot", Arg: func(b, r string) string { return "inner/.." }, Chdir: true},
